@@ -2,6 +2,431 @@
 
 package main
 
-import "github.com/ipfs/boxo/verifshim/vexp"
+import (
+	"context"
+	"fmt"
+	"sort"
+	"strings"
+	"time"
 
-func concScenarios() []*vexp.Scenario { return nil }
+	pb "github.com/ipfs/boxo/bitswap/message/pb"
+	"github.com/ipfs/boxo/verifshim/eng"
+	"github.com/ipfs/boxo/verifshim/vexp"
+	"github.com/ipfs/boxo/verifshim/vsched"
+	blocks "github.com/ipfs/go-block-format"
+)
+
+// Concurrent part: driver threads call MessageReceived / NotifyNewBlocks /
+// PeerDisconnected while a receiver thread takes envelopes from the outbox
+// and reports them sent, all interleaved with the engine's task worker and
+// blockstore worker (and the thaw ticker). Every schedule within the deviation
+// bound is executed. The oracle is interval-based: a call takes effect at some
+// point between its start and its return, an envelope is judged against every
+// want-list the peer may have had while it was being built.
+
+type cscript struct {
+	name    string
+	cfg     config
+	threads [][]string // per driver thread: operations ("r1:<msg>", "new:C", "d1")
+	rounds  int        // envelopes the receiver thread tries to take
+	delta   int
+}
+
+type cev struct {
+	kind         string // call | env | sent
+	thr          int
+	op           string
+	role         int
+	start, ret   int // logical positions (ret = -1: never returned)
+	blocks       []int
+	haves, donts []int
+}
+
+type cexec struct {
+	sc  *cscript
+	w   *world
+	pos int
+	evs []*cev
+	// snapshot at final quiescence
+	final   [2]map[int]lent
+	snapped bool
+}
+
+func (x *cexec) tick() int { x.pos++; return x.pos }
+
+func (x *cexec) Main() {
+	sc := x.sc
+	x.w = newWorld(sc.cfg)
+	w := x.w
+	done := vsched.Reg(make(chan struct{}, len(sc.threads)))
+	runOps := func(ti int, ops []string) {
+		for _, op := range ops {
+			ev := &cev{kind: "call", thr: ti, op: op, ret: -1, role: -1}
+			ev.start = x.tick()
+			x.evs = append(x.evs, ev)
+			switch {
+			case strings.HasPrefix(op, "r1:"), strings.HasPrefix(op, "r2:"):
+				ev.role = int(op[1] - '1')
+				msg, _ := parseMsg(op[3:]).build()
+				w.e.MessageReceived(context.Background(), w.ids[ev.role], msg)
+			case op == "new:C":
+				w.put(cC)
+				w.e.NotifyNewBlocks([]blocks.Block{poolBlks[cC]})
+			case op == "d1", op == "d2":
+				ev.role = int(op[1] - '1')
+				w.e.PeerDisconnected(w.ids[ev.role])
+			default:
+				panic("bad op " + op)
+			}
+			ev.ret = x.tick()
+		}
+	}
+	// receiver: mirrors bitswap/server's task worker; may stay blocked at the end
+	vsched.GoNamed("receiver", false, func() {
+		for i := 0; i < sc.rounds; i++ {
+			ev := &cev{kind: "env", ret: -1, role: -1}
+			ev.start = x.tick()
+			x.evs = append(x.evs, ev)
+			one := vsched.Recv(w.e.Outbox())
+			env, ok := vsched.Recv2(one)
+			if !ok || env == nil {
+				continue
+			}
+			ev.role = w.role(env.Peer)
+			for _, b := range env.Message.Blocks() {
+				ev.blocks = append(ev.blocks, cidIdx(b.Cid()))
+			}
+			for _, bp := range env.Message.BlockPresences() {
+				if bp.Type == pb.Message_Have {
+					ev.haves = append(ev.haves, cidIdx(bp.Cid))
+				} else {
+					ev.donts = append(ev.donts, cidIdx(bp.Cid))
+				}
+			}
+			sort.Ints(ev.blocks)
+			sort.Ints(ev.haves)
+			sort.Ints(ev.donts)
+			ev.ret = x.tick()
+			sv := &cev{kind: "sent", role: ev.role, blocks: ev.blocks, haves: ev.haves, ret: -1}
+			sv.start = x.tick()
+			x.evs = append(x.evs, sv)
+			w.e.MessageSent(env.Peer, env.Message)
+			env.Sent()
+			sv.ret = x.tick()
+		}
+	})
+	// the main thread is caller 0 itself (fewer threads = fewer free scheduling choices)
+	for ti := 1; ti < len(sc.threads); ti++ {
+		ti := ti
+		vsched.GoNamed(fmt.Sprintf("caller%d", ti), true, func() {
+			runOps(ti, sc.threads[ti])
+			vsched.SendTo(done)(struct{}{})
+		})
+	}
+	runOps(0, sc.threads[0])
+	for ti := 1; ti < len(sc.threads); ti++ {
+		vsched.Recv((<-chan struct{})(done))
+	}
+	vsched.WaitIdle()
+	for r := 0; r < 2; r++ {
+		x.final[r] = w.ledger(r)
+	}
+	// second chance before a liveness verdict: if a want for an available block is still on a
+	// want-list, let the engine's 100ms thaw ticker fire once and look again
+	pendingWork := false
+	for r := 0; r < 2; r++ {
+		for c := range x.final[r] {
+			if w.serves(r, c) {
+				pendingWork = true
+			}
+		}
+	}
+	if pendingWork {
+		vsched.Sleep(150 * time.Millisecond)
+		vsched.WaitIdle()
+		for r := 0; r < 2; r++ {
+			x.final[r] = w.ledger(r)
+		}
+	}
+	x.snapped = true
+	x.tick()
+}
+
+func (x *cexec) AtEnd(*vsched.Result) {}
+
+func (x *cexec) Outcome() string {
+	var sb strings.Builder
+	for _, e := range x.evs {
+		if e.kind == "env" && e.ret >= 0 {
+			fmt.Fprintf(&sb, "p%d[%s|%s|%s] ", e.role+1, names(e.blocks), names(e.haves), names(e.donts))
+		}
+	}
+	if x.snapped {
+		fmt.Fprintf(&sb, "final %s %s", fmtLedger(x.final[0]), fmtLedger(x.final[1]))
+	}
+	return sb.String()
+}
+
+func (x *cexec) logString() string {
+	var sb strings.Builder
+	for _, e := range x.evs {
+		switch e.kind {
+		case "call":
+			fmt.Fprintf(&sb, "  [%d..%d] caller%d %s\n", e.start, e.ret, e.thr, e.op)
+		case "env":
+			fmt.Fprintf(&sb, "  [%d..%d] receiver: envelope p%d blk=%s have=%s dont=%s\n", e.start, e.ret, e.role+1, names(e.blocks), names(e.haves), names(e.donts))
+		case "sent":
+			fmt.Fprintf(&sb, "  [%d..%d] receiver: MessageSent+Sent p%d\n", e.start, e.ret, e.role+1)
+		}
+	}
+	if x.snapped {
+		fmt.Fprintf(&sb, "  final want-lists: p1 %s p2 %s\n", fmtLedger(x.final[0]), fmtLedger(x.final[1]))
+	}
+	return sb.String()
+}
+
+// wantEv / remEv: the effects of the logged calls on the want-list entry (role, c).
+type ival struct {
+	start, ret int
+	dh         bool
+	have       bool
+}
+
+func (x *cexec) effects(role, c int) (adds, rems []ival) {
+	inf := 1 << 30
+	for _, e := range x.evs {
+		ret := e.ret
+		if ret < 0 {
+			ret = inf
+		}
+		switch e.kind {
+		case "call":
+			if e.role != role {
+				continue
+			}
+			if e.op[0] == 'd' {
+				rems = append(rems, ival{e.start, ret, false, false})
+				continue
+			}
+			ms := parseMsg(e.op[3:])
+			_, merged := ms.build()
+			mentioned := false
+			for _, m := range merged {
+				if m.c != c {
+					continue
+				}
+				mentioned = true
+				if m.cancel {
+					rems = append(rems, ival{e.start, ret, false, false})
+				} else {
+					adds = append(adds, ival{e.start, ret, m.dh, m.have})
+				}
+			}
+			if ms.full && !mentioned {
+				rems = append(rems, ival{e.start, ret, false, false})
+			}
+		case "sent":
+			if e.role == role && contains(e.blocks, c) {
+				rems = append(rems, ival{e.start, ret, false, false})
+			}
+			if e.role == role && contains(e.haves, c) {
+				rems = append(rems, ival{e.start, ret, false, true}) // a HAVE satisfies want-haves only
+			}
+		}
+	}
+	// a delivered HAVE does not take a want-block off the list: drop it as a removal when a
+	// want-block for the CID may already have been there
+	k := rems[:0]
+	for _, rm := range rems {
+		if rm.have {
+			upgraded := false
+			for _, a := range adds {
+				if !a.have && a.start < rm.ret {
+					upgraded = true
+				}
+			}
+			if upgraded {
+				continue
+			}
+		}
+		k = append(k, rm)
+	}
+	rems = k
+	return
+}
+
+// mayWant: the peer's want-list may have contained c at some moment of [ws, we].
+func mayWant(adds, rems []ival, ws, we int, needDH bool) bool {
+	for _, a := range adds {
+		if a.start >= we || (needDH && !a.dh) {
+			continue
+		}
+		killed := false
+		for _, k := range rems {
+			if k.start > a.ret && k.ret < ws {
+				killed = true
+			}
+		}
+		if !killed {
+			return true
+		}
+	}
+	return false
+}
+
+// surelyWants: at the end the peer wants c under every ordering of overlapping calls.
+func surelyWants(adds, rems []ival) (bool, int) {
+	for _, a := range adds {
+		ok := true
+		for _, k := range rems {
+			if k.ret >= a.start {
+				ok = false
+			}
+		}
+		if ok {
+			return true, a.start
+		}
+	}
+	return false, 0
+}
+
+func (x *cexec) Check(res *vsched.Result) *eng.Violation {
+	logStr := x.logString()
+	w := x.w
+	// when was C stored (scenarios with new:C)
+	putStart, putRet := 1<<30, 1<<30
+	for _, e := range x.evs {
+		if e.kind == "call" && e.op == "new:C" {
+			putStart = e.start
+			if e.ret >= 0 {
+				putRet = e.ret
+			}
+		}
+	}
+	inStoreMaybe := func(c, we int) bool { // possibly in the store at some moment before we
+		if c == cC {
+			return putStart < we
+		}
+		return c >= 0 && w.store[c]
+	}
+	absentMaybe := func(c, ws int) bool { // possibly absent at some moment after ws
+		if c == cC {
+			return putRet > ws
+		}
+		return c < 0 || !w.store[c]
+	}
+	for _, e := range x.evs {
+		if e.kind != "env" || e.ret < 0 {
+			continue
+		}
+		r := e.role
+		if r < 0 {
+			return eng.V("envelope-for-unknown-peer", "", logStr)
+		}
+		for _, c := range e.blocks {
+			adds, rems := x.effects(r, c)
+			if !inStoreMaybe(c, e.ret) {
+				return eng.V("block-not-in-store", "", fmt.Sprintf("block %s sent to p%d\n%s", cname(c), r+1, logStr))
+			}
+			if !permitted(r, c) {
+				return eng.V("block-denied-by-filter", "", fmt.Sprintf("block %s sent to p%d\n%s", cname(c), r+1, logStr))
+			}
+			if !mayWant(adds, rems, e.start, e.ret, false) {
+				return eng.V("block-not-wanted", "", fmt.Sprintf("block %s sent to p%d in the envelope built during [%d..%d] although under every ordering of the overlapping calls the peer's want-list did not contain it then\n%s", cname(c), r+1, e.start, e.ret, logStr), "concurrent", "true")
+			}
+		}
+		for _, c := range e.haves {
+			adds, rems := x.effects(r, c)
+			if !inStoreMaybe(c, e.ret) || !permitted(r, c) {
+				return eng.V("have-for-absent-block", "", fmt.Sprintf("HAVE %s sent to p%d\n%s", cname(c), r+1, logStr), "concurrent", "true")
+			}
+			if !mayWant(adds, rems, e.start, e.ret, false) {
+				return eng.V("have-not-wanted", "", fmt.Sprintf("HAVE %s sent to p%d during [%d..%d]\n%s", cname(c), r+1, e.start, e.ret, logStr), "concurrent", "true")
+			}
+		}
+		for _, c := range e.donts {
+			adds, rems := x.effects(r, c)
+			if !absentMaybe(c, e.start) && permitted(r, c) {
+				return eng.V("dont-have-for-present-block", "", fmt.Sprintf("DONT_HAVE %s sent to p%d in the envelope built during [%d..%d] although the block was in the store before\n%s", cname(c), r+1, e.start, e.ret, logStr), "concurrent", "true", "block_added_concurrently", fmt.Sprint(c == cC))
+			}
+			if !mayWant(adds, rems, e.start, e.ret, true) {
+				return eng.V("dont-have-not-requested", "", fmt.Sprintf("DONT_HAVE %s sent to p%d during [%d..%d]\n%s", cname(c), r+1, e.start, e.ret, logStr), "concurrent", "true")
+			}
+		}
+	}
+	if !x.snapped {
+		return nil
+	}
+	// limit and liveness at final quiescence (receiver still had rounds left?)
+	envs := 0
+	for _, e := range x.evs {
+		if e.kind == "env" && e.ret >= 0 {
+			envs++
+		}
+	}
+	for r := 0; r < 2; r++ {
+		if len(x.final[r]) > x.sc.cfg.L {
+			return eng.V("wantlist-exceeds-limit", "", fmt.Sprintf("p%d: %s\n%s", r+1, fmtLedger(x.final[r]), logStr), "concurrent", "true")
+		}
+		if envs >= x.sc.rounds {
+			continue // the receiver stopped taking envelopes: nothing can be said about the rest
+		}
+		for c := range x.final[r] {
+			adds, rems := x.effects(r, c)
+			sure, since := surelyWants(adds, rems)
+			if !sure {
+				continue
+			}
+			if w.serves(r, c) {
+				return eng.V("want-unanswered", "quiescence", fmt.Sprintf("at final quiescence (engine idle, receiver waiting on the outbox, thaw ticker fired) the accepted want %s of p%d is still unanswered although the block is in the store\n%s", cname(c), r+1, logStr), "concurrent", "true", "block_added_concurrently", fmt.Sprint(c == cC))
+			}
+			needDH := false
+			for _, a := range adds {
+				if a.dh {
+					needDH = true
+				}
+			}
+			if needDH {
+				answered := false
+				for _, e := range x.evs {
+					if e.kind == "env" && e.ret > since && e.role == r && (contains(e.blocks, c) || contains(e.haves, c) || contains(e.donts, c)) {
+						answered = true
+					}
+				}
+				if !answered {
+					return eng.V("dont-have-unanswered", "quiescence", fmt.Sprintf("accepted want %s of p%d with send_dont_have never got an answer\n%s", cname(c), r+1, logStr), "concurrent", "true")
+				}
+			}
+		}
+	}
+	return nil
+}
+
+func concScripts() []*cscript {
+	base := config{L: 2, R: 16, T: 44}
+	one := config{L: 2, R: 16, T: 1}
+	return []*cscript{
+		{name: "two-peers", cfg: base, threads: [][]string{{"r1:bA1"}, {"r2:bB2"}}, rounds: 2, delta: -1},
+		{name: "cancel-race", cfg: one, threads: [][]string{{"r1:bA1", "r1:xA"}}, rounds: 2},
+		{name: "want-upgrade", cfg: config{L: 2, R: 0, T: 1}, threads: [][]string{{"r1:hB2!", "r1:bB2"}}, rounds: 2},
+		{name: "two-wants-one-peer", cfg: base, threads: [][]string{{"r1:bA1", "r1:bC3!"}}, rounds: 2},
+		{name: "notify-race", cfg: one, threads: [][]string{{"r1:bC3!"}, {"new:C"}}, rounds: 2, delta: -1},
+		{name: "notify-race-silent", cfg: one, threads: [][]string{{"r1:bC3"}, {"new:C"}}, rounds: 1},
+		{name: "overflow-race", cfg: config{L: 1, R: 16, T: 1}, threads: [][]string{{"r1:bA1", "r1:bE4"}}, rounds: 2},
+		{name: "disconnect-race", cfg: one, threads: [][]string{{"r1:bA1"}, {"d1"}}, rounds: 2, delta: -1},
+		{name: "same-cid-two-peers-cancel", cfg: one, threads: [][]string{{"r1:bA1", "r1:xA"}, {"r2:bA1"}}, rounds: 2, delta: -1},
+	}
+}
+
+func concScenarios() []*vexp.Scenario {
+	var out []*vexp.Scenario
+	for _, s := range concScripts() {
+		s := s
+		out = append(out, &vexp.Scenario{
+			Name: s.name, BoundDelta: s.delta,
+			Cfg: vsched.Config{MaxSteps: 100000, MaxIdleFires: 2, SelectCost: 1},
+			New: func() vexp.Exec { return &cexec{sc: s} },
+		})
+	}
+	return out
+}
